@@ -94,6 +94,69 @@ Theorem cstep_connected_tie : forall soc db cap dw url b s,
 Proof. exact EquivClient_proofs.cstep_connected_tie. Qed.
 Print Assumptions cstep_connected_tie.
 
+(* ---------- TitanClientProtocol: the same model with request = [line ++ CRLF; content] and decode_body = true ----------
+   Its methods are translated by the same rules and tables (names gen_titan_m).  _header_too_long, _parse_header, _set_error and
+   data_received tie to the same model functions as the Gemini class (Titan guards every close() with `if self.transport`,
+   so it never raises AttributeError, but without a transport it skips the close the model emits: same hypothesis).
+   connection_lost has `if is_text:` without `and self.decode_body`: it is the model's connection_lost at decode_body = true. *)
+Theorem titan_header_too_long_tie : forall s, gen_titan_header_too_long s = header_too_long (cbuf s).
+Proof. exact EquivClient_proofs.titan_header_too_long_tie. Qed.
+Print Assumptions titan_header_too_long_tie.
+
+Theorem titan_set_error_tie : forall s k, gen_titan_set_error s k = (set_err s k, []).
+Proof. exact EquivClient_proofs.titan_set_error_tie. Qed.
+Print Assumptions titan_set_error_tie.
+
+Theorem titan_parse_header_tie : forall s line,
+  gen_titan_parse_header (fun s k => (set_err s k, [])) s line = (parse_header s line, []).
+Proof. exact EquivClient_proofs.titan_parse_header_tie. Qed.
+Print Assumptions titan_parse_header_tie.
+
+Theorem titan_data_received_tie : forall s d,
+  connected s = true ->
+  gen_titan_data_received (fun s => header_too_long (cbuf s)) (fun s l => (parse_header s l, [])) (fun s k => (set_err s k, [])) s d
+  = data_received gen_MAX_RESPONSE_BODY_SIZE s d.
+Proof. exact EquivClient_proofs.titan_data_received_tie. Qed.
+Print Assumptions titan_data_received_tie.
+
+Theorem titan_connection_lost_tie : forall dw url s exc,
+  (cfut s = Pending -> hdr s = true -> status s <> None) ->
+  gen_titan_connection_lost dw url s (option_map (app (lit "conn:")) exc) = (connection_lost true dw s exc, []).
+Proof. exact EquivClient_proofs.titan_connection_lost_tie. Qed.
+Print Assumptions titan_connection_lost_tie.
+
+(* send_request writes the line, then the content = the CSend branch of cstep at request = [line; content] *)
+Theorem titan_send_request_tie : forall soc db cap dw url content b s,
+  encode (url ++ [13; 10]%N) = Some b ->
+  gen_titan_send_request url content s = cstep [b; content] soc db cap dw s CSend.
+Proof. exact EquivClient_proofs.titan_send_request_tie. Qed.
+Print Assumptions titan_send_request_tie.
+
+Theorem titan_send_request_unencodable : forall url content s,
+  encode (url ++ [13; 10]%N) = None ->
+  gen_titan_send_request url content s = (s, if connected s then [CEscape (lit "UnicodeEncodeError")] else []).
+Proof. exact EquivClient_proofs.titan_send_request_unencodable. Qed.
+Print Assumptions titan_send_request_unencodable.
+
+Theorem titan_cstep_data_tie : forall request soc db dw s d,
+  connected s = true ->
+  gen_titan_data_received gen_titan_header_too_long (gen_titan_parse_header gen_titan_set_error) gen_titan_set_error s d
+  = cstep request soc db gen_MAX_RESPONSE_BODY_SIZE dw s (CData d).
+Proof. exact EquivClient_proofs.titan_cstep_data_tie. Qed.
+Print Assumptions titan_cstep_data_tie.
+
+Theorem titan_cstep_lost_tie : forall request soc cap dw url s exc,
+  (cfut s = Pending -> hdr s = true -> status s <> None) ->
+  gen_titan_connection_lost dw url s (option_map (app (lit "conn:")) exc) = cstep request soc true cap dw s (CLost exc).
+Proof. exact EquivClient_proofs.titan_cstep_lost_tie. Qed.
+Print Assumptions titan_cstep_lost_tie.
+
+Theorem titan_cstep_connected_tie : forall soc db cap dw url content b s,
+  encode (url ++ [13; 10]%N) = Some b ->
+  gen_titan_connection_made (gen_titan_send_request url content) soc s = cstep [b; content] soc db cap dw s CConnected.
+Proof. exact EquivClient_proofs.titan_cstep_connected_tie. Qed.
+Print Assumptions titan_cstep_connected_tie.
+
 (* ---------- the state hypotheses are invariants of the model ---------- *)
 Theorem status_known_reachable : forall request soc db cap dw evs,
   let s := fst (crun request soc db cap dw cinit evs) in
